@@ -151,6 +151,8 @@ def same_class(a, b):
 
 def minimise(mod, choices, info, budget_s=30, max_exec=160):
     """Shrink a failing choice list while the same violation class persists."""
+    scale = float(os.environ.get('VERIF_MINIMISE_SCALE', '1') or 1)
+    budget_s, max_exec = budget_s * scale, int(max_exec * scale)
     t0 = time.time()
     n_exec = 0
     best = list(choices)
@@ -226,6 +228,8 @@ def distinct_by_kind(tags):
 def minimise_by_label(mod, groups, info, budget_s=90, max_exec=700):
     """Second minimisation stage, on the label-keyed form of the choices ({label: [values]}): whole labels to
     zero, shortest failing prefix per label, then single values to zero / lower.  Returns (groups, stats)."""
+    scale = float(os.environ.get('VERIF_MINIMISE_SCALE', '1') or 1)
+    budget_s, max_exec = budget_s * scale, int(max_exec * scale)
     t0 = time.time()
     n_exec = 0
     best = {k: list(v) for k, v in groups.items()}
